@@ -1,16 +1,28 @@
 (* C19 — Format-agnostic wrappers and JSON serialization mirror the format-specific API.
    Statements only; every proof is [exact <lemma>].
 
-   PARTIAL by nature: serde / serde_json and the wrapper methods over directories that have
-   no model here (exports, imports, debug, tls, load config, scanner, resources ...) are
-   outside the theorems; their delegation and the field-by-field JSON table are established
-   by the correspondence check (differential testing), not by theorem.  What is proved:
-   variant selection, the delegation diagrams of the modelled method groups, the computed
-   JSON detail "DataDirectory.Sections" (F24), and null-ness of the modelled `.ok()` fields. *)
-From PV.Model Require Import Machine Mapping Views Headers Wrap.
+   PARTIAL by nature: serde / serde_json are outside any model.  What is proved, over the executable
+   models of the wrapper layer (Model/Wrap.v, Model/WrapDirs.v) and of the serialization
+   (Model/Json.v, Model/WrapJson.v):
+     first round  - variant selection, the delegation diagrams of the header / slice / derva groups,
+                    the computed JSON detail "DataDirectory.Sections" (F24), null-ness of `.ok()` fields;
+     second round - every wrapper method with code of its own (the three iterators of Wrap<By>, the
+                    transposes, Wrap<Desc>::int, the wrapped iterators) returns what the format-specific
+                    method of the held variant returns; an abstract JSON type with the compact printer of
+                    serde_json and a parser / validator, parser o printer = identity; the model of
+                    serialize_pe: it succeeds on every accepted image, its text is well formed and denotes
+                    the model's tree, every member is the value of the model accessor it is built from,
+                    an `.ok()` member is null exactly when the accessor errs.
+   That the real wrapper code and the real Serialize impls ARE these models is established by the
+   correspondence check (the implementation's JSON text is parsed by the extracted parser and compared
+   with the model's tree), not by theorem. *)
+From Coq Require Import Strings.String.
+From PV.Model Require Import JsonStr.
+From PV.Model Require Import Machine Mapping Views Headers Wrap WrapDirs Json WrapStrTab WrapJson.
+From PV.Model Require Exports Imports Dirs Relocs Rich.
 From PV.gen Require Import Layout.
 From PV.Spec Require Import HeaderSpec WrapSpec.
-From PV.Proofs Require HeadersProofs WrapProofs.
+From PV.Proofs Require HeadersProofs WrapProofs WrapDirsProofs JsonProofs WrapJsonProofs JsonUtf8Proofs WrapJsonUtf8.
 
 (* ---- variant selection (strengthens C07_wrapper): for ANY buffer the constructor returns
    T64 exactly when the PE32+ parser accepts it, T32 exactly when the PE32 parser accepts it,
@@ -137,6 +149,281 @@ Theorem C19_F8_security_orig_refuted :
 Proof. exact WrapProofs.f8_security_orig_refuted. Qed.
 Print Assumptions C19_F8_security_orig_refuted.
 
+(* ================================================================================================
+   SECOND ROUND: the rest of the wrapper layer
+   ================================================================================================ *)
+
+(* ---- the generic items of wrap/mod.rs: `impl Iterator for Wrap` run to exhaustion yields the items of the
+   held iterator tagged with the variant; transpose and into ---- *)
+Theorem C19_wrap_iterator : forall (A : Type) w (l : list A),
+  wcollect (tag w l) = map (tag w) l /\ map winto (map (tag w) l) = l.
+Proof. exact @WrapDirsProofs.wrap_iterator. Qed.
+Print Assumptions C19_wrap_iterator.
+
+Theorem C19_wrap_transpose : forall (A : Type) w (r : res A), wtranspose (tag w r) = (x <- r ;; Ok (tag w x)).
+Proof. exact @WrapDirsProofs.wtranspose_tag. Qed.
+Print Assumptions C19_wrap_transpose.
+
+(* ---- Wrap<By> (wrap/exports.rs): the delegating methods, for any By value ---- *)
+Theorem C19_by_delegates : forall w cstr t,
+  wby_functions w t = Exports.t_funcs t /\ wby_names w t = Exports.t_names t /\ wby_name_indices w t = Exports.t_idxs t /\
+  (forall rva, wby_symbol_from_rva w cstr t rva = Exports.symbol_from_rva (cstr (fmt_of w)) t rva) /\
+  (forall h, wby_name_of_hint w cstr t h = Exports.name_of_hint (cstr (fmt_of w)) t h) /\
+  (forall h, wby_hint w cstr t h = Exports.hint (cstr (fmt_of w)) t h) /\
+  (forall i, wby_index w cstr t i = Exports.index (cstr (fmt_of w)) t i) /\
+  (forall o, wby_ordinal w cstr t o = Exports.ordinal (cstr (fmt_of w)) t o) /\
+  (forall n, wby_name w cstr t n = Exports.name (cstr (fmt_of w)) t n) /\
+  (forall n, wby_name_linear w cstr t n = Exports.name_linear (cstr (fmt_of w)) t n) /\
+  (forall h n, wby_hint_name w cstr t h n = Exports.hint_name (cstr (fmt_of w)) t h n) /\
+  (forall i, wby_import w cstr t i = Exports.import_ (cstr (fmt_of w)) t i) /\
+  (forall i, wby_name_lookup w cstr t i = Exports.name_lookup (cstr (fmt_of w)) t i) /\
+  wby_check_sorted w cstr t = Exports.check_sorted (cstr (fmt_of w)) t.
+Proof. exact WrapDirsProofs.wby_delegates. Qed.
+Print Assumptions C19_by_delegates.
+
+(* ---- Wrap<By>::iter / iter_names / iter_name_indices are written out in the wrapper (ranges, zip, casts):
+   on the value the wrapper constructor returned they are the format-specific iterators, item by item ---- *)
+Theorem C19_by_iterators_mirror : forall m w file t, wrap_from_bytes m = Ok w -> mem_ok m ->
+  op_exports_by (fmt_of w) file m = Ok t ->
+  let cs := fun f => op_cstr f file m in
+  wrap_exports_by w file m = Ok (tag w t) /\
+  wby_iter w cs t = Exports.iter (op_cstr (fmt_of w) file m) t /\
+  wby_iter_names w cs t = Exports.iter_names (op_cstr (fmt_of w) file m) t /\
+  wby_iter_name_indices w cs t = Exports.iter_name_indices (op_cstr (fmt_of w) file m) t.
+Proof. exact WrapDirsProofs.wrap_by_iterators. Qed.
+Print Assumptions C19_by_iterators_mirror.
+
+(* for ANY By value the two name iterators agree as long as the name table has fewer than 2^32 entries ... *)
+Theorem C19_by_iter_names_mirror : forall w cstr t, lenN (Exports.t_names t) < W32 ->
+  wby_iter_names w cstr t = Exports.iter_names (cstr (fmt_of w)) t /\
+  wby_iter_name_indices w cstr t = Exports.iter_name_indices (cstr (fmt_of w)) t.
+Proof. exact WrapDirsProofs.wby_name_iterators_mirror. Qed.
+Print Assumptions C19_by_iter_names_mirror.
+(* ... and the bound is needed: `names.len() as u32` (it cannot be violated by a table read from an image,
+   whose length is a u32 field) *)
+Theorem C19_by_iter_names_truncates : forall w cstr t, lenN (Exports.t_names t) = W32 -> wby_iter_names w cstr t = [].
+Proof. exact WrapDirsProofs.wby_iter_names_truncates. Qed.
+Print Assumptions C19_by_iter_names_truncates.
+
+(* ---- imports / IAT / debug / TLS / load config wrappers with code of their own ---- *)
+Theorem C19_directory_wrappers_mirror : forall w file m,
+  wrap_exports_by w file m = (t <- op_exports_by (fmt_of w) file m ;; Ok (tag w t)) /\
+  (forall r, map winto (wrap_imports_iter w file m r) = op_descs (fmt_of w) file m r) /\
+  (forall d, wrap_desc_iat w file m d = (l <- op_desc_iat (fmt_of w) file m d ;; Ok (tag w l))) /\
+  (forall d, wrap_desc_int w file m d = op_desc_int (fmt_of w) file m d) /\
+  (forall r, map winto (wrap_iat_iter w file m r) = op_iat_iter (fmt_of w) file m r) /\
+  (forall r, map winto (wrap_debug_iter w file m r) = op_debug_dirs (fmt_of w) file m r) /\
+  (forall t, wrap_tls_callbacks w file m t = (r <- op_tls_callbacks (fmt_of w) file m t ;; Ok (tag w r))) /\
+  (forall t, wrap_lc_se_handler_table w file m t = (r <- op_lc_se_handler_table (fmt_of w) file m t ;; Ok (tag w r))).
+Proof. exact WrapDirsProofs.directory_wrappers_mirror. Qed.
+Print Assumptions C19_directory_wrappers_mirror.
+
+(* the width of the Va items (IAT, callbacks, SE handlers) is the held variant's *)
+Theorem C19_va_width : forall w file m,
+  Imports.va_bytes (pe_of (fmt_of w) file m) = (match w with T32 => 4 | T64 => 8 end) /\
+  Dirs.va_size (pe_view (fmt_of w) file m) = (match w with T32 => 4 | T64 => 8 end).
+Proof. exact WrapDirsProofs.va_width. Qed.
+Print Assumptions C19_va_width.
+
+(* wrap/sections.rs name_bytes (util::trimn): exactly the trailing zero bytes are removed *)
+Theorem C19_trimn_spec : forall buf,
+  exists zeros, buf = trimn buf ++ zeros /\ Forall (fun b => b = 0) zeros /\
+  ((0 < length (trimn buf))%nat -> nth (length (trimn buf) - 1) (trimn buf) 0 <> 0).
+Proof. exact WrapDirsProofs.trimn_spec. Qed.
+Print Assumptions C19_trimn_spec.
+
+(* ================================================================================================
+   SECOND ROUND: JSON
+   ================================================================================================ *)
+
+(* ---- the abstract JSON type: the parser inverts the compact printer on EVERY value; hence every printed
+   text is well formed (accepted by the validator of the RFC 8259 grammar) and the printer loses nothing ---- *)
+Theorem C19_json_parse_print : forall j, parse_json (print_json j) = Some j.
+Proof. exact JsonProofs.parse_print. Qed.
+Print Assumptions C19_json_parse_print.
+
+Theorem C19_json_print_well_formed : forall j, well_formed (print_json j) = true.
+Proof. exact JsonProofs.print_well_formed. Qed.
+Print Assumptions C19_json_print_well_formed.
+
+Theorem C19_json_print_injective : forall a b, print_json a = print_json b -> a = b.
+Proof. exact JsonProofs.print_json_inj. Qed.
+Print Assumptions C19_json_print_injective.
+
+(* the validator is not the constant true *)
+Theorem C19_json_validator_rejects :
+  well_formed [123; 34; 97; 34; 58; 125] = false /\
+  well_formed [91; 49; 44; 93] = false /\
+  well_formed [48; 49] = false /\
+  well_formed [34; 10; 34] = false /\
+  well_formed [34; 92; 120; 34] = false /\
+  well_formed [91; 49; 93; 93] = false /\
+  well_formed [123; 34; 97; 34; 58; 91; 49; 44; 123; 125; 93; 125] = true.
+Proof. exact JsonProofs.well_formed_rejects. Qed.
+Print Assumptions C19_json_validator_rejects.
+
+(* ---- "serializing any accepted image succeeds": the model of serialize_pe returns a value on every image
+   the format's constructor accepts - no accessor, iterator or formatter inside it panics or errs ---- *)
+Theorem C19_serialize_total : forall f file m soi, validate f m = Ok soi -> mem_ok m ->
+  exists j, json_of_image f file m = Ok j.
+Proof. exact WrapJsonProofs.json_of_image_total. Qed.
+Print Assumptions C19_serialize_total.
+
+(* ---- through the wrapper: the text is the print of the held format's tree, it is well formed, and parsing
+   it gives that tree back ---- *)
+Theorem C19_serialize_text : forall m w file, wrap_from_bytes m = Ok w -> mem_ok m ->
+  exists j text, json_of_image (fmt_of w) file m = Ok j /\ wrap_json w file m = Ok j /\
+    wrap_json_text w file m = Ok text /\ text = print_json j /\
+    well_formed text = true /\ parse_json text = Some j.
+Proof. exact WrapJsonProofs.wrap_json_text_ok. Qed.
+Print Assumptions C19_serialize_text.
+
+(* ---- "each serialized field equals the value the corresponding accessor returns" ----
+   the nine members, in this order, are the nine group values *)
+Theorem C19_json_members : forall f file m j, json_of_image f file m = Ok j ->
+  exists jh jr je ji jb jd jt jl js,
+    json_headers f m = Ok jh /\ json_rich m = Ok jr /\ json_exports f file m = Ok je /\ json_imports f file m = Ok ji /\
+    json_base_relocs f file m = Ok jb /\ json_debug f file m = Ok jd /\ json_tls f file m = Ok jt /\
+    json_load_config f file m = Ok jl /\ json_security f file m = Ok js /\
+    jkeys j = [k_headers; k_rich_structure; k_exports; k_imports; k_base_relocs; k_debug; k_tls; k_load_config; k_security] /\
+    jfield k_headers j = Some jh /\ jfield k_rich_structure j = Some jr /\ jfield k_exports j = Some je /\
+    jfield k_imports j = Some ji /\ jfield k_base_relocs j = Some jb /\ jfield k_debug j = Some jd /\
+    jfield k_tls j = Some jt /\ jfield k_load_config j = Some jl /\ jfield k_security j = Some js.
+Proof. exact WrapJsonProofs.json_members. Qed.
+Print Assumptions C19_json_members.
+
+(* an `.ok()` member is null exactly when the accessor it is built from returns an error *)
+Theorem C19_ok_members_null_iff_err : forall f file m,
+  (forall j, json_rich m = Ok j -> (j = JNull <-> exists e, acc_rich m = Err e)) /\
+  (forall j, json_exports f file m = Ok j -> (j = JNull <-> exists e, op_exports_by f file m = Err e)) /\
+  (forall j, json_imports f file m = Ok j -> (j = JNull <-> exists e, op_imports f file m = Err e)) /\
+  (forall j, json_base_relocs f file m = Ok j -> (j = JNull <-> exists e, op_base_relocs f file m = Err e)) /\
+  (forall j, json_debug f file m = Ok j -> (j = JNull <-> exists e, op_debug f file m = Err e)) /\
+  (forall j, json_tls f file m = Ok j -> (j = JNull <-> exists e, op_tls f file m = Err e)) /\
+  (forall j, json_load_config f file m = Ok j -> (j = JNull <-> exists e, op_load_config f file m = Err e)) /\
+  (forall j, json_security f file m = Ok j -> (j = JNull <-> exists e, op_security f file m = Err e)).
+Proof. exact WrapJsonProofs.ok_members_null_iff_err. Qed.
+Print Assumptions C19_ok_members_null_iff_err.
+
+(* the header members by path: the fields validate_headers consults, the two tables, the computed details *)
+Theorem C19_headers_fields : forall f m jh, json_headers f m = Ok jh ->
+  json_get [Key (S_"DosHeader"); Key (S_"e_magic")] jh = Some (JNum (rd16 m IMAGE_DOS_HEADER_e_magic_off)) /\
+  json_get [Key (S_"DosHeader"); Key (S_"e_lfanew")] jh = Some (JNum (e_lfanew m)) /\
+  json_get [Key (S_"NtHeaders"); Key (S_"Signature")] jh = Some (JNum (rd32 m (e_lfanew m))) /\
+  json_get [Key (S_"NtHeaders"); Key (S_"FileHeader"); Key (S_"NumberOfSections")] jh = Some (JNum (h_nsec f m)) /\
+  json_get [Key (S_"NtHeaders"); Key (S_"FileHeader"); Key (S_"SizeOfOptionalHeader")] jh = Some (JNum (h_optsz f m)) /\
+  json_get [Key (S_"NtHeaders"); Key (S_"OptionalHeader"); Key (S_"Magic")] jh = Some (JNum (h_magic f m)) /\
+  json_get [Key (S_"NtHeaders"); Key (S_"OptionalHeader"); Key (S_"SizeOfCode")] jh = Some (JNum (h_soc f m)) /\
+  json_get [Key (S_"NtHeaders"); Key (S_"OptionalHeader"); Key (S_"BaseOfCode")] jh = Some (JNum (h_boc f m)) /\
+  json_get [Key (S_"NtHeaders"); Key (S_"OptionalHeader"); Key (S_"ImageBase")] jh = Some (JNum (h_base f m)) /\
+  json_get [Key (S_"NtHeaders"); Key (S_"OptionalHeader"); Key (S_"SizeOfImage")] jh = Some (JNum (h_soi f m)) /\
+  json_get [Key (S_"NtHeaders"); Key (S_"OptionalHeader"); Key (S_"SizeOfHeaders")] jh = Some (JNum (h_soh f m)) /\
+  json_get [Key (S_"NtHeaders"); Key (S_"OptionalHeader"); Key (S_"NumberOfRvaAndSizes")] jh = Some (JNum (h_nrva f m)) /\
+  json_get [Key (S_"DataDirectory")] jh = Some (JArr (map json_data_dir (op_data_directory f m))) /\
+  json_get [Key (S_"SectionHeaders")] jh = Some (JArr (map (fun i => json_section m (sec_off f m i)) (range (h_nsec f m)))) /\
+  json_get [Key (S_"details"); Key (S_"OptionalHeader.CheckSum")] jh = Some (JNum (check_sum f m)) /\
+  json_get [Key (S_"details"); Key (S_"OptionalHeader.Magic")] jh = Some (jenum tab_OptionalMagic (h_magic f m)) /\
+  json_get [Key (S_"details"); Key (S_"DataDirectory.Sections")] jh =
+    Some (JArr (map (jopt JNum) (map (fun d => by_rva f m (fst d)) (op_data_directory f m)))).
+Proof. exact WrapJsonProofs.headers_fields. Qed.
+Print Assumptions C19_headers_fields.
+
+(* the array "SectionHeaders" runs over the section table of Model/Headers.v; the geometry members of an item
+   are the fields of the model's section record *)
+Theorem C19_section_fields : forall f m,
+  sections f m = map (fun i => section_at m (sec_off f m i)) (range (h_nsec f m)) /\
+  forall o,
+  json_get [Key (S_"VirtualAddress")] (json_section m o) = Some (JNum (s_va (section_at m o))) /\
+  json_get [Key (S_"VirtualSize")] (json_section m o) = Some (JNum (s_vs (section_at m o))) /\
+  json_get [Key (S_"PointerToRawData")] (json_section m o) = Some (JNum (s_prd (section_at m o))) /\
+  json_get [Key (S_"SizeOfRawData")] (json_section m o) = Some (JNum (s_srd (section_at m o))) /\
+  json_get [Key (S_"Name")] (json_section m o) = Some (json_sec_name (bytes_from m (o + IMAGE_SECTION_HEADER_Name_off) 8)).
+Proof. exact WrapJsonProofs.section_fields. Qed.
+Print Assumptions C19_section_fields.
+
+(* the members of "exports": the By accessors; dll_name null iff derva_c_str errs; every name member is a
+   name the format-specific iter_name_indices yields, with its index *)
+Theorem C19_exports_fields : forall v x t j, json_by v x t = Ok j ->
+  json_get [Key (S_"time_date_stamp")] j = Some (JNum (Exports.x_field (v_get v) x IMAGE_EXPORT_DIRECTORY_TimeDateStamp_off)) /\
+  json_get [Key (S_"ordinal_base")] j = Some (JNum (Exports.t_base t mod W16)) /\
+  json_get [Key (S_"functions")] j = Some (JArr (map JNum (Exports.t_funcs t))) /\
+  (exists names, json_export_names (Exports.iter_name_indices (Exports.view_cstr v) t) = Ok names /\
+                 json_get [Key (S_"names")] j = Some (JObj names)) /\
+  (json_get [Key (S_"dll_name")] j = Some JNull <->
+   exists e, Exports.view_cstr v (Exports.x_field (v_get v) x IMAGE_EXPORT_DIRECTORY_Name_off) = Err e).
+Proof. exact WrapJsonProofs.exports_fields. Qed.
+Print Assumptions C19_exports_fields.
+
+Theorem C19_export_names_sound : forall l names, json_export_names l = Ok names ->
+  forall k v, In (k, v) names -> exists ix, v = JNum ix /\ In (Ok k, ix) l /\ utf8_valid k = true.
+Proof. exact WrapJsonProofs.export_names_sound. Qed.
+Print Assumptions C19_export_names_sound.
+
+(* the members of tls / load_config / security / base_relocs / rich_structure, and the array shape of imports / debug *)
+Theorem C19_directory_fields : forall f file m,
+  (forall t j, op_tls f file m = Ok t -> json_tls f file m = Ok j ->
+     exists ord ocb, ok_ (Dirs.tls_raw_data (pe_view f file m) t) = Ok ord /\ ok_ (Dirs.tls_callbacks (pe_view f file m) t) = Ok ocb /\
+       json_get [Key (S_"raw_data")] j = Some (jopt (fun r => JStr (base64 (rbytes (m_get m) r))) ord) /\
+       json_get [Key (S_"callbacks")] j = Some (jopt (fun r => JArr (map JNum (va_values (pe_view f file m) r))) ocb)) /\
+  (forall t j, op_load_config f file m = Ok t -> json_load_config f file m = Ok j ->
+     exists oc os, ok_ (Dirs.lc_security_cookie (pe_view f file m) t) = Ok oc /\ ok_ (Dirs.lc_se_handler_table (pe_view f file m) t) = Ok os /\
+       json_get [Key (S_"security_cookie")] j = Some (jopt (fun r => JNum (Dirs.u32at (m_get m) (r_off r))) oc) /\
+       json_get [Key (S_"se_handler_table")] j = Some (jopt (fun r => JArr (map JNum (va_values (pe_view f file m) r))) os)) /\
+  (forall r j, op_security f file m = Ok r -> json_security f file m = Ok j ->
+     json_get [Key (S_"certificate_type")] j = Some (JNum (Dirs.certificate_type (m_get m) r)) /\
+     exists data, Dirs.certificate_data r = Ok data /\
+       json_get [Key (S_"certificate_data")] j = Some (JStr (base64 (rbytes (m_get m) data)))) /\
+  (forall r j, op_base_relocs f file m = Ok r -> json_base_relocs f file m = Ok j ->
+     exists ps, Relocs.fold_pairs (rbytes (m_get m) r) = Ok ps /\
+       json_get [Key (S_"rvas")] j = Some (JArr (map (fun p => JNum (fst p)) ps)) /\
+       json_get [Key (S_"types")] j = Some (JArr (map (fun p => JNum (snd p)) ps))) /\
+  (forall se j, acc_rich m = Ok se -> json_rich m = Ok j ->
+     json_get [Key (S_"xor_key")] j = Some (JNum (Rich.xor_key (mem_dwords m) se)) /\
+     json_get [Key (S_"checksum")] j = Some (JNum (Rich.checksum (mem_dwords m) se)) /\
+     json_get [Key (S_"records")] j = Some (JArr (map json_rich_record (Rich.records (mem_dwords m) se)))) /\
+  (forall r j, op_imports f file m = Ok r -> json_imports f file m = Ok j ->
+     exists l, map_res (json_desc (pe_of f file m)) (op_descs f file m r) = Ok l /\ j = JArr l) /\
+  (forall r j, op_debug f file m = Ok r -> json_debug f file m = Ok j ->
+     exists l, map_res (json_dir (pe_view f file m)) (op_debug_dirs f file m r) = Ok l /\ j = JArr l).
+Proof. exact WrapJsonProofs.directory_fields. Qed.
+Print Assumptions C19_directory_fields.
+
+(* ---- RFC 8259 section 8.1: the text is UTF-8.  [utf8] (Spec/WrapSpec.v) is the declarative RFC 3629 structure; the
+   boolean check of the model (the stand-in for str::from_utf8) decides it; a value whose strings and keys are UTF-8
+   prints to UTF-8 text; every string of the serialization model is UTF-8 on an accepted image (this includes the two
+   `from_utf8_unchecked` on the serialized path: CodeView::format and the ASCII runs of CStr's Display); hence the
+   text serialize produces is UTF-8 ---- *)
+Theorem C19_utf8_valid_iff : forall s, utf8_valid s = true <-> utf8 s.
+Proof. exact JsonUtf8Proofs.utf8_valid_iff. Qed.
+Print Assumptions C19_utf8_valid_iff.
+
+Theorem C19_print_json_utf8 : forall j, json_utf8 j -> utf8_valid (print_json j) = true.
+Proof. exact JsonUtf8Proofs.print_json_utf8_valid. Qed.
+Print Assumptions C19_print_json_utf8.
+
+Theorem C19_serialize_strings_utf8 : forall f file m j, mem_ok m -> json_of_image f file m = Ok j -> json_utf8 j.
+Proof. exact WrapJsonUtf8.json_of_image_utf8. Qed.
+Print Assumptions C19_serialize_strings_utf8.
+
+Theorem C19_serialize_text_utf8 : forall m w file text, wrap_from_bytes m = Ok w -> mem_ok m ->
+  wrap_json_text w file m = Ok text -> utf8_valid text = true.
+Proof. exact WrapJsonUtf8.wrap_json_text_utf8. Qed.
+Print Assumptions C19_serialize_text_utf8.
+
+(* ---- the oracle the check evaluates on the text the IMPLEMENTATION produced: when it accepts, that text is
+   well formed, it is the canonical print of its tree, and the tree minus "resources" is the model's ---- *)
+Theorem C19_json_text_oracle_sound : forall model text, json_text_ok model text = true ->
+  exists j jm, parse_json text = Some j /\ well_formed text = true /\ text = print_json j /\
+    model = Ok jm /\ drop_member k_resources j = jm.
+Proof. exact WrapJsonProofs.json_text_ok_sound. Qed.
+Print Assumptions C19_json_text_oracle_sound.
+
+Theorem C19_json_text_oracle_complete : forall members res_value,
+  (forall k v, In (k, v) members -> list_eqb k k_resources = false) ->
+  json_text_ok (Ok (JObj members)) (print_json (JObj (members ++ [(k_resources, res_value)]))) = true.
+Proof. exact WrapJsonProofs.json_text_ok_complete. Qed.
+Print Assumptions C19_json_text_oracle_complete.
+
 Example C19_nonvacuous :
   wrap_from_bytes WrapProofs.f24_mem = Ok T32 /\ select_spec WrapProofs.f24_mem = Some T32 /\
   fmt_by_magic WrapProofs.f24_mem = Some fmt32 /\
@@ -145,3 +432,55 @@ Example C19_nonvacuous :
   wrap_derva T32 false WrapProofs.f24_mem 64 4 4 = Ok {| r_off := 64; r_len := 4 |} /\
   json_is_null (acc_exports fmt32 true WrapProofs.f24_mem) = true.
 Proof. vm_compute. repeat split; reflexivity. Qed.
+
+(* second round, not vacuous: the serialization model evaluated on the accepted 1 KiB image above - nine members,
+   exports / security null, the section name, a details string, a flag list; its printed text (2962 bytes) passes
+   the validator when the validator is actually run on it *)
+Example C19_json_nonvacuous :
+  let j := WrapJsonProofs.f24_json in
+  json_of_image fmt32 true WrapProofs.f24_mem = Ok j /\
+    wrap_json T32 true WrapProofs.f24_mem = Ok j /\
+    length (print_json j) = 2962%nat /\ well_formed (print_json j) = true /\ parse_json (print_json j) = Some j /\
+    utf8_valid (print_json j) = true /\
+    jkeys j = [k_headers; k_rich_structure; k_exports; k_imports; k_base_relocs; k_debug; k_tls; k_load_config; k_security] /\
+    jfield k_exports j = Some JNull /\ jfield k_security j = Some JNull /\
+    json_get [Key k_headers; Key (S_"NtHeaders"); Key (S_"OptionalHeader"); Key (S_"SizeOfImage")] j = Some (JNum 12288) /\
+    json_get [Key k_headers; Key (S_"SectionHeaders"); Idx 0; Key (S_"Name")] j = Some (JStr (S_".t")) /\
+    json_get [Key k_headers; Key (S_"details"); Key (S_"OptionalHeader.Magic")] j = Some (JStr (S_"IMAGE_NT_OPTIONAL_HDR32_MAGIC")) /\
+    json_get [Key k_headers; Key (S_"details"); Key (S_"FileHeader.Characteristics")] j =
+      Some (JArr [JStr (S_"IMAGE_FILE_EXECUTABLE_IMAGE"); JStr (S_"IMAGE_FILE_32BIT_MACHINE")]) /\
+    json_get [Key k_headers; Key (S_"details"); Key (S_"DataDirectory.Sections"); Idx 0] j = Some JNull.
+Proof. vm_compute. repeat split; reflexivity. Qed.
+
+(* the wrapper's written-out iterators on a two-name table whose ordinal table is a permutation: hint 0 -> index 1 *)
+Example C19_by_iterators_nonvacuous :
+  let t := {| Exports.t_funcs := [4096; 8192]; Exports.t_names := [100; 200]; Exports.t_idxs := [1; 0];
+              Exports.t_base := 1; Exports.t_dva := 0; Exports.t_dsize := 0 |} in
+  let cstr := fun (f : fmt) (rva : N) => if f_64 f then Ok [rva] else Err ENull in
+  wby_iter_names T64 cstr t = [(Ok [100], Ok (Exports.Symbol 8192)); (Ok [200], Ok (Exports.Symbol 4096))] /\
+  wby_iter_name_indices T32 cstr t = [(Err ENull, 1); (Err ENull, 0)] /\
+  wby_iter T64 cstr t = [Ok (Exports.Symbol 4096); Ok (Exports.Symbol 8192)] /\
+  print_json (JObj [(S_"a\b", JArr [JNum 10; JNull; JBool true; JStr [10; 34; 200]])]) =
+    S_"{""a\\b"":[10,null,true,""\n\"""  ++ [200] ++ S_"""]}".
+Proof. vm_compute. repeat split; reflexivity. Qed.
+
+(* ---- leaf functions regenerated from the source on every run (tools/gen_leaf.py -> gen/Leaf.v): agreement with the hand-written model ---- *)
+(* src/pe64/headers.rs Headers::{code_range, image_range}, compiled for pe32 and for pe64 and regenerated from the
+   source on every run, are Wrap.op_code_range / op_image_range on the optional-header fields they read *)
+From PV.Model Require Headers Wrap.
+From PV.gen Require Leaf.
+From PV.Proofs Require LeafWrap.
+Theorem C19_leaf_code_range : forall f m,
+  (if Headers.f_64 f then Leaf.L_pe64_headers_Headers_code_range else Leaf.L_pe32_headers_Headers_code_range) (Wrap.h_soc f m) (Wrap.h_boc f m)
+    = Wrap.op_code_range f m /\
+  (if Headers.f_64 f then Leaf.L_pe64_headers_Headers_code_range_ok else Leaf.L_pe32_headers_Headers_code_range_ok) (Wrap.h_soc f m) (Wrap.h_boc f m)
+    = true.
+Proof. exact LeafWrap.code_range_agrees. Qed.
+Print Assumptions C19_leaf_code_range.
+Theorem C19_leaf_image_range : forall f m,
+  (if Headers.f_64 f then Leaf.L_pe64_headers_Headers_image_range else Leaf.L_pe32_headers_Headers_image_range) (Headers.h_soi f m) (Headers.h_soh f m)
+    = Wrap.op_image_range f m /\
+  (if Headers.f_64 f then Leaf.L_pe64_headers_Headers_image_range_ok else Leaf.L_pe32_headers_Headers_image_range_ok) (Headers.h_soi f m) (Headers.h_soh f m)
+    = true.
+Proof. exact LeafWrap.image_range_agrees. Qed.
+Print Assumptions C19_leaf_image_range.
